@@ -26,13 +26,15 @@ CLAIM = {
 
 def run(ctx):
     ctx.regen(["scantok"])
+    sc.gen_notes(ctx)
     ctx.prove("C15")
     R = sc.Runner(ctx)
     L = ctx.n(3, 3)
     srcs = sc.exhaustive(sc.ALPHA, L)
     nex = len(srcs)
     if not ctx.quick:
-        srcs += [s for s in sc.exhaustive(sc.ALPHA_SMALL, 4) if len(s) and s.count(b"") >= 0 and len(s) >= 4]
+        import itertools
+        srcs += [b"".join(t) for t in itertools.product(sc.ALPHA_SMALL, repeat=4)]
     nex2 = len(srcs)
     shapes = {}
     nrand = ctx.n(6000, 300000)
